@@ -41,6 +41,7 @@ instance : NumCmpOps XRat where
   lt := lt
   feq := feq
   isNaN := nan
+  isFinite a := a.den != 0
   eps := ⟨1, 2 ^ 52⟩
   chanTol := ⟨1, 10 ^ 7⟩
 
